@@ -588,7 +588,11 @@ def fixed_shapes():
         # the #[default] unit variant declared last and the only smallest one; wide tags
         UE('u8', 2, [U32, V(U8, 'u16')], [U32], []), US(U8, UE('u8', 1, [U16, V(U16, 'u16')], [])),
         UE('u16', 2, [U32, V(U8, 'u16')], [U32], []), UE('u32', 1, [U8, FS('u8')], []), UE('u16', 0, [], [U8, V(U8, 'u8')]),
+        # a FlexVec of unsized enums whose variant has two padded sized fields and a low-aligned tail
+        FX(UE('u8', 0, [], [U8, U32, U8, U32, V(U8, 'u8')]), 'u16'),
         # portable composites
+        ('enum', False, 'u8', 1, ((I('le::U32'),), (), (BOOL, V(U8, 'le::U16'))), 'np'),
+        ('enum', True, 'u8', 2, ((I('be::U16'),), (BOOL, BOOL), ()), 'np'),
         ('struct', True, (I('le::U32'), BOOL, I('be::I16')), 'np'),
         ('struct', False, (I('le::U16'), V(I('be::U32'), 'le::U16')), 'np'),
         ('enum', False, 'u8', 0, ((), (I('le::U32'),), (BOOL, V(U8, 'le::U16'))), 'np'),
@@ -681,8 +685,9 @@ def random_portable(rng, depth, sized=None):
             return ('struct', True, tuple(random_portable(rng, depth - 1, True) for _ in range(n)), rng.choice(['np', 'tp']))
         nv = rng.randint(2, 4)
         vs = [tuple(random_portable(rng, depth - 1, True) for _ in range(rng.randint(0, 3))) for _ in range(nv)]
-        vs[0] = ()
-        return ('enum', True, 'u8', 0, tuple(vs), rng.choice(['np', 'tp']))
+        k = rng.randrange(nv)
+        vs[k] = ()
+        return ('enum', True, 'u8', k, tuple(vs), rng.choice(['np', 'tp']))
     r = rng.random()
     l = rng.choice(PORTABLE_LENS)
     if depth <= 0 or r < 0.3:
@@ -706,10 +711,11 @@ def random_portable(rng, depth, sized=None):
             vs.append(())
         else:
             vs.append(tuple([random_portable(rng, depth - 1, True) for _ in range(n - 1)] + [random_portable(rng, depth - 1)]))
-    vs[0] = ()
+    k = rng.randrange(nv)
+    vs[k] = ()
     if all(len(v) == 0 for v in vs):
         vs.append((random_portable(rng, depth - 1),))
-    return ('enum', False, 'u8', 0, tuple(vs), rng.choice(['np', 'tp']))
+    return ('enum', False, 'u8', k, tuple(vs), rng.choice(['np', 'tp']))
 
 
 def declared_portable(t):
